@@ -69,6 +69,24 @@ def mutants(data, rng, n, others=()):
                 add(data.replace(a, b_))
                 i = data.rfind(a)
                 add(data[:i] + b_ + data[i + len(a):])
+    # text grammars: runs of optional whitespace before / after the separators and at the end, explicit signs before tokens
+    if L and all(b in (9, 10, 13) or 32 <= b < 127 for b in data[:200]):
+        for sep in (b';', b',', b'=', b':'):
+            if sep in data:
+                for ws in (b'  ', b'\t', b' \t '):
+                    add(data.replace(sep, ws + sep, 1))
+                    add(data.replace(sep, ws + sep))
+                    add(data.replace(sep, sep + ws, 1))
+                    i = data.rfind(sep)
+                    add(data[:i] + ws + sep + data[i + 1:])
+        for ws in (b'  ', b'\t', b'   '):
+            add(data + ws)
+            add(data.rstrip(b'\r\n') + ws + data[len(data.rstrip(b'\r\n')):])
+        words = data.split(b' ')
+        for k in range(1, min(len(words), 7)):
+            for sign in (b'+', b'-', b'~', b'?'):
+                if words[k] and words[k][:1] not in (b'+', b'-', b'~', b'?'):
+                    add(b' '.join(words[:k] + [sign + words[k]] + words[k + 1:]))
     # letter case, one letter at a time (text protocols: where does case matter?)
     for i in spots:
         if 0x41 <= data[i] <= 0x5a or 0x61 <= data[i] <= 0x7a:
